@@ -24,6 +24,9 @@ pub struct WireState {
     pub flushes: usize,
     /// when set, a write never completes (transport stall)
     pub stall: bool,
+    /// back-pressure: the transport has room for this many more bytes; once used up a write parks until the room is lifted
+    pub room: Option<usize>,
+    pub room_waker: Option<Waker>,
     /// back-pressure: accept at most this many bytes per `poll_write` call
     pub max_write: Option<usize>,
     /// back-pressure: every other `poll_write` returns Pending first
@@ -66,6 +69,11 @@ impl AsyncWrite for RecWriter {
             w.budget = Some(b - 1);
         }
         let n = match w.max_write { Some(m) if m > 0 => std::cmp::min(m, buf.len()), _ => buf.len() };
+        let n = match w.room {
+            Some(0) => { w.room_waker = Some(cx.waker().clone()); return Poll::Pending; }
+            Some(r) => { let k = std::cmp::min(n, r); w.room = Some(r - k); k }
+            None => n,
+        };
         w.writes.push(buf[..n].to_vec());
         w.times.push(tokio::time::Instant::now());
         if let Some(nf) = w.notify.as_ref() { nf.notify_one(); }
@@ -381,6 +389,18 @@ impl Node {
             }
             ["eof"] => { self.feed.lock().unwrap().eof = true; wake(&self.feed); "ok".into() }
             ["rderr"] => { self.feed.lock().unwrap().err = true; wake(&self.feed); "ok".into() }
+            ["room", k] => {
+                // the peer stops reading: the transport takes k more bytes, then writes park (`room none` = it reads again)
+                let mut w = self.wire.lock().unwrap();
+                w.room = if *k == "none" { None } else { match k.parse() { Ok(v) => Some(v), Err(_) => return "bad-op".into() } };
+                if w.room.is_none() { if let Some(wk) = w.room_waker.take() { wk.wake(); } }
+                "ok".into()
+            }
+            ["tick", ms] => {
+                let Ok(ms) = ms.parse::<u64>() else { return "bad-op".into() };
+                tokio::time::sleep(Duration::from_millis(ms)).await;
+                "ok".into()
+            }
             ["budget", n] => {
                 self.wire.lock().unwrap().budget = if *n == "none" { None } else { match n.parse() { Ok(v) => Some(v), Err(_) => return "bad-op".into() } };
                 "ok".into()
